@@ -217,6 +217,18 @@ fn check_blocks(blocks: &[(usize, usize)], sink: &Sink) -> e2::Stats {
             total.max_choice_points = total.max_choice_points.max(stats.max_choice_points);
             total.capped |= stats.capped;
         }
+        // Diff mode (every line added) with a path argument that matches no file: the blocks are
+        // modified and named by the diff, so the same calls and verdicts are due.
+        if !files.is_empty() {
+            let diff: String = files.iter().map(|(n, t)| crate::cli::new_file_diff(n, t)).collect();
+            kit.reset_log();
+            sink.exec();
+            let outcome = crate::librun::run(&Input { files: files.clone(), diff: Some(diff), globs: vec!["nomatch/**".into()], map_order: Some(names.clone()), ..Default::default() });
+            let calls = kit.calls();
+            kit.reset_log();
+            sink.outcome(format!("diff+other-glob:{}", outcome.class()));
+            judge(&plans, &outcome, &calls, "diff mode with a non-matching path argument", &input_json, sink);
+        }
         if !blocks.is_empty() {
             sink.nontrivial();
         }
@@ -237,7 +249,9 @@ struct ContentCase {
 
 const CONTENTS: &[&str] = &["v1 = 1", "  v1 = \"é ≤\"  ", "\n\nv1\n\n  v2\t\n\n", "'single' \"double\" \\back", "", "   ", "line1\r\nline2 v3"];
 const PATTERNS: &[Option<&str>] = &[None, Some(r"(?P<value>v\d+)"), Some(r"v\d+"), Some(r"nomatch\d"), Some(r"(?s)^(?P<value>.*)$"), Some(r"(?P<other>v\d)"), Some(r"(?P<value>\s+v\d)"), Some(r"\S+\s*$")];
-const EXTRA_ATTRS: &[(&str, &str)] = &[("", ""), ("note", "say 'hi' é ≤"), ("severity", "warning"), ("name", "n-1_x")];
+// The last one is the other content-taking validator's pattern attribute: without `check-ai` it
+// selects nothing and must not change what the script is given.
+const EXTRA_ATTRS: &[(&str, &str)] = &[("", ""), ("note", "say 'hi' é ≤"), ("severity", "warning"), ("name", "n-1_x"), ("check-ai-pattern", "(?P<value>\\d)")];
 
 fn check_content(case: &ContentCase, sink: &Sink) {
     KIT.with(|kit| {
